@@ -94,6 +94,11 @@ func (l *ltBroadcast) buildPendBlock(pd *pendBlock) bool {
 		group, _ := tx.GetTxGroup()
 		// 交易组中的其他交易, 依次添加到区块交易列表中
 		for j, gtx := range group.GetTxs() {
+			// 交易组超出了轻区块声明的交易数量, 对端数据不一致, 无法组装(等待超时后请求完整区块)
+			if index+j >= len(pd.block.GetTxs()) {
+				buildSuccess = false
+				break
+			}
 			pd.block.GetTxs()[index+j] = gtx
 		}
 	}
